@@ -8,6 +8,7 @@ import SodiumModel.Spec.Scrypt
 import SodiumModel.Spec.Blake2b
 import SodiumModel.Spec.Sha256
 import SodiumModel.Model.ScryptRef   -- scrypt-ref (G3)
+import SodiumModel.Model.Argon2Simd  -- argon2-simd: the AVX2-structured block function inside the Argon2 core
 /-
   C08 driver: password hashing ops through Model/Pwhash.lean. The Argon2 core is the C-structured model of
   the reference implementation (Model/Argon2Ref.lean: `argon2_ctx` steps 2-5, proved equal to the RFC 9106
@@ -33,6 +34,21 @@ def scryptRef (pwd salt : Bytes) (N r p dkLen : Nat) : Bytes :=
 def prims : Prims :=
   { argon2 := fun y pwd salt t m lanes outlen => Argon2Ref.argon2_hash_ref_model blake2b y pwd salt t m lanes outlen
     scrypt := scryptRef }   -- scrypt-ref (G3)
+
+-- BEGIN argon2-simd: for small memory sizes (m_cost ≤ 64 KiB) the operation is ALSO run with the model of
+-- `argon2_fill_segment_avx2` (Model/Argon2Simd.lean: `fill_block` on `__m256i state[32]`, BLAKE2_ROUND_1 / _2, G1_AVX2 / G2_AVX2,
+-- DIAGONALIZE_1 / _2, the carried `state`) as the `fill_segment` of the Argon2 core; the two output lines must agree
+-- (Properties/C08Simd.lean proves that the tags do), otherwise ` MODEL-DISAGREE` is appended, which no library run prints.
+def primsAvx2 : Prims :=
+  { prims with argon2 := fun y pwd salt t m lanes outlen =>
+      if m ≤ 64 then Argon2Simd.argon2_hash_model Argon2Simd.argon2_fill_segment_avx2 blake2b y pwd salt t m lanes outlen
+      else Argon2Ref.argon2_hash_ref_model blake2b y pwd salt t m lanes outlen }
+
+/-- run an operation on the reference-structured core and, when `small`, on the AVX2-structured core as well -/
+def checked (small : Bool) (f : Prims → String) : String :=
+  let r := f prims
+  if small then (if f primsAvx2 == r then r else r ++ " MODEL-DISAGREE") else r
+-- END argon2-simd
 
 /-- `atoi`-like parse of the alg argument (decimal integers only, optional sign) -/
 def parseInt? (s : String) : Option Int := s.toInt?
@@ -65,20 +81,24 @@ def handle (op : String) (args : List String) : Option String :=
     let alg ← algOf alg; let outlen ← u64? outlen; let pw ← ofHex pw; let salt ← ofHex salt
     let ops ← u64? ops; let mem ← u64? mem
     if outlen > 2 ^ 20 ∨ salt.length ≠ 16 then some badArgs else
-    some (resLine (crypto_pwhash prims outlen pw salt ops mem alg))
+    some (checked (mem / 1024 ≤ 64) fun prims => resLine (crypto_pwhash prims outlen pw salt ops mem alg))
   | "pwhash.str", [alg, pw, ops, mem, salt] => do
     let pw ← ofHex pw; let ops ← u64? ops; let mem ← u64? mem; let salt ← ofHex salt
     let rnd := script salt 16
-    if alg = "argon2i" then some (strLine (crypto_pwhash_argon2_str prims .i pw ops mem rnd))
-    else if alg = "argon2id" then some (strLine (crypto_pwhash_argon2_str prims .id pw ops mem rnd))
-    else if alg = "default" then some (strLine (crypto_pwhash_str prims pw ops mem rnd))
-    else some (strLine (crypto_pwhash_str_alg prims pw ops mem (← parseInt? alg) rnd))
+    let algInt := if alg = "argon2i" ∨ alg = "argon2id" ∨ alg = "default" then some 0 else parseInt? alg
+    let algInt ← algInt
+    some (checked (mem / 1024 ≤ 64) fun prims =>
+      if alg = "argon2i" then strLine (crypto_pwhash_argon2_str prims .i pw ops mem rnd)
+      else if alg = "argon2id" then strLine (crypto_pwhash_argon2_str prims .id pw ops mem rnd)
+      else if alg = "default" then strLine (crypto_pwhash_str prims pw ops mem rnd)
+      else strLine (crypto_pwhash_str_alg prims pw ops mem algInt rnd))
   | "pwhash.verify", [st, pw] => do
     let st ← ofHex st; let pw ← ofHex pw
-    let a := crypto_pwhash_str_verify prims st pw
-    let b := crypto_pwhash_argon2_str_verify prims .i st pw
-    let c := crypto_pwhash_argon2_str_verify prims .id st pw
-    some s!"{a.rc} {b.rc} {c.rc}"
+    some (checked true fun prims =>
+      let a := crypto_pwhash_str_verify prims st pw
+      let b := crypto_pwhash_argon2_str_verify prims .i st pw
+      let c := crypto_pwhash_argon2_str_verify prims .id st pw
+      s!"{a.rc} {b.rc} {c.rc}")
   | "pwhash.needs_rehash", [st, ops, mem] => do
     let st ← ofHex st; let ops ← u64? ops; let mem ← u64? mem
     let a := crypto_pwhash_str_needs_rehash st ops mem
